@@ -660,8 +660,18 @@ fn check_case(c: &Case) -> Outcome {
                 _ => Node { anchor: n.anchor.clone(), tag: n.tag.clone(), kind },
             }
         }
+        // (a variant tag on a mapping node is the notation the reference interpreter leaves
+        // Free - the crate does not look at mapping tags: what such a document means is not
+        // fixed, so neither is what its rewritten form should give; libFuzzer artifact)
+        fn has_tagged_map(n: &Node) -> bool {
+            match &n.kind {
+                Kind::Seq { items, .. } => items.iter().any(has_tagged_map),
+                Kind::Map { entries, .. } => n.tag.is_some() || entries.iter().any(|(k, v)| has_tagged_map(k) || has_tagged_map(v)),
+                _ => false,
+            }
+        }
         let mut changed = false;
-        let doc2 = to_map_notation(&c.doc, &mut changed);
+        let doc2 = if has_tagged_map(&c.doc) { c.doc.clone() } else { to_map_notation(&c.doc, &mut changed) };
         // (judged on documents generated from a value of the type: on perturbed ones the two
         // notations may fail - or be tolerated - in different ways)
         if changed && (c.perturbation == "none" || c.perturbation == "no-op") {
